@@ -316,5 +316,21 @@ class Script:
         return "@ %s\n%s\n" % (self.sid, "\n".join(self.ops))
 
 
+class build_lock:
+    """serialises the build phase (translator, make, extraction, cargo) of concurrently running checks"""
+
+    def __enter__(self):
+        import fcntl
+        os.makedirs(BUILD, exist_ok=True)
+        self.fh = open(os.path.join(BUILD, "build.lock"), "w")
+        fcntl.flock(self.fh, fcntl.LOCK_EX)
+        return self
+
+    def __exit__(self, *a):
+        import fcntl
+        fcntl.flock(self.fh, fcntl.LOCK_UN)
+        self.fh.close()
+
+
 def now():
     return time.time()
